@@ -89,6 +89,7 @@ Unsub(h, o) ==
 \*   unsub_at = k : on the k-th item call unsubscribe() on the sink's own Subscription (if subscribe() already returned it)
 \*   emit_at  = k : on the k-th item call next(7) on subject emit_j            (re-entrant emission)
 \*   sub_at   = k : on the k-th item subscribe sink 3 to subject emit_j        (re-entrant subscription)
+\*   sub_at   = -k: on the k-th item subscribe sink 3 to the connectable 1 again (re-entrant subscription to the observable it is called from)
 \* unsubscribe() on sink u's own Subscription from inside the library's call chain (if subscribe() already returned it)
 UnsubFromInside(h, u) ==
   LET sc == h.sinkcnt[u] IN
@@ -108,6 +109,9 @@ SinkReact(h, u) ==
   IN IF h4.stuck = "" /\ sc.sub_at = cnt
      THEN LET o == Len(h4.obs) + 1
           IN Subscribe([h4 EXCEPT !.obs = Append(@, NewObs(SinkHd(3)))], Leaf("subject", sc.emit_j), o)
+     ELSE IF h4.stuck = "" /\ sc.sub_at = 0 - cnt
+     THEN LET o == Len(h4.obs) + 1
+          IN Subscribe([h4 EXCEPT !.obs = Append(@, NewObs(SinkHd(3)))], Leaf("conn", 1), o)
      ELSE h4
 
 CallNext(h, o, x) ==
